@@ -173,6 +173,10 @@ def sub_diff(exp, act):
     for k, v in exp.items():
         if k not in act or act[k] != v:
             d[k] = {"expected": v, "observed": act.get(k, "<absent>")}
+    # the harness logs "ecb" (error-callback calls during the operation) only when non-zero: an error callback that the
+    # specification does not announce is a disagreement
+    if "ecb" in act and "ecb" not in exp:
+        d["ecb"] = {"expected": 0, "observed": act["ecb"]}
     return d
 
 
@@ -181,10 +185,10 @@ def compare(expected, observed):
     bad = []
     if len(expected) != len(observed):
         raise Infra("harness returned %d events for %d records" % (len(observed), len(expected)))
-    for x, o in zip(expected, observed):
+    for i, (x, o) in enumerate(zip(expected, observed)):
         d = sub_diff(x["out"], o["out"])
         if d:
-            bad.append({"e": x["e"], "in": x["in"], "diff": d, "spec_out": x["out"], "impl_out": o["out"]})
+            bad.append({"e": x["e"], "in": x["in"], "diff": d, "spec_out": x["out"], "impl_out": o["out"], "idx": i})
     return bad
 
 
